@@ -231,6 +231,40 @@ def run(ctx):
                 if len(outs) > 64:
                     raise KeyError(norm(e))
             return outs
+        if isinstance(e, ast.Attribute) and isinstance(e.value, ast.Name):
+            # a field of a local record: marker = Rec(' => ', alert_color) [if .. else Rec(..)];  marker.color_code
+            defs_r = [n for n in f.body_nodes() if isinstance(n, (ast.Assign, ast.AnnAssign)) and any(isinstance(t, ast.Name) and t.id == e.value.id for t in (n.targets if isinstance(n, ast.Assign) else [n.target]))]
+            outs_r = set()
+            okr = bool(defs_r)
+
+            def rec_values(v):
+                if isinstance(v, ast.IfExp):
+                    return rec_values(v.body) + rec_values(v.orelse)
+                return [v]
+            for d in defs_r:
+                for v in rec_values(d.value) if d.value is not None else []:
+                    r_ = repo.resolve_expr_static(f.module, v.func) if isinstance(v, ast.Call) and isinstance(v.func, (ast.Name, ast.Attribute)) else None
+                    flds = r_[1].record_fields() if r_ and r_[0] == 'class' else None
+                    names = [n_ for n_, _ in flds] if flds else []
+                    if e.attr not in names or any(isinstance(a, ast.Starred) for a in v.args):
+                        okr = False
+                        continue
+                    i_ = names.index(e.attr)
+                    val = None
+                    for k in v.keywords:
+                        if k.arg == e.attr:
+                            val = k.value
+                    if val is None and i_ < len(v.args):
+                        val = v.args[i_]
+                    if val is None:
+                        val = flds[i_][1]
+                    if val is None:
+                        okr = False
+                        continue
+                    outs_r |= code_values(f, val, depth + 1)
+            if okr and outs_r:
+                return outs_r
+            raise KeyError(norm(e))
         if isinstance(e, ast.Name):
             # local alias?
             defs = [n for n in f.body_nodes() if isinstance(n, (ast.Assign, ast.AnnAssign)) and any(isinstance(t, ast.Name) and t.id == e.id for t in (n.targets if isinstance(n, ast.Assign) else [n.target]))]
